@@ -425,10 +425,6 @@ def repaired_record(bio: Any, judgement: FileJudgement, parent: Parent, rmap: Re
 
 # --------------------------------------------------------------------------- the reloaded record against the parent objects
 
-def _area_loc(feature: Any) -> dict:
-    return ring.from_bio(feature.location)
-
-
 def expected_content(record: Any, region: Any, rmap: RegionMap) -> dict:
     from antismash.common.secmet.features import Prepeptide
 
